@@ -22,7 +22,7 @@ IDENT = re.compile(r"^[a-zA-Z_][a-zA-Z_0-9]*$")
 PLAIN = {
     "seed": 0, "blank": 0.0, "comment": 0.0, "arg_nl": 0.0, "val_nl": 0.0, "list_nl": 0.0,
     "trail_comma": 0.0, "space": 0.0, "quote": 0.0, "eol": "\n", "lead": 0, "final_nl": True,
-    "trail_cmt": 0.0,
+    "trail_cmt": 0.0, "exotic_cmt": 0.0,
 }
 
 
@@ -71,16 +71,24 @@ class Renderer(object):
         v = self.lay.get(key, 0.0)
         return v > 0 and self.rng.random() < v
 
+    EXOTIC = ("\x0c", "\x0b", "\x1c", "\x1d", "\x1e", "\x85", "\u2028", "\u2029")
+
+    def _exotic(self):
+        """Characters that str.splitlines() treats as line breaks but the lexer and readlines() do not."""
+        if self._p("exotic_cmt"):
+            return " page" + self.rng.choice(self.EXOTIC) + "break"
+        return ""
+
     def newline(self):
         if self.line_has_token and self._p("trail_cmt"):
-            self.parts.append(" # c%d" % self.rng.randrange(100))
+            self.parts.append(" # c%d%s" % (self.rng.randrange(100), self._exotic()))
         self.parts.append(self.eol)
         self.line += 1
         self.at_line_start = True
         self.line_has_token = False
 
     def comment_line(self):
-        self.parts.append("# note %d (x=1, y=[2])" % self.rng.randrange(1000))
+        self.parts.append("# note %d (x=1, y=[2])%s" % (self.rng.randrange(1000), self._exotic()))
         self.newline()
 
     def gap(self, nl_key=None):
